@@ -477,3 +477,46 @@ Definition elng_decode (pl : str) : res (bool * str) :=
         else Err
     | _ => Err
     end.
+
+(* ------------------------------------------------------------------ stpp payload (stpp.go), no child boxes *)
+(* EncodeSW after the box header for NewStppBox (nrMissingOptionalEndBytes = 0): 6 reserved bytes,
+   data reference index, three zero-terminated strings *)
+Definition stpp_payload (dref : N) (ns schema mime : str) : str :=
+  [0; 0; 0; 0; 0; 0; dref / 256; dref mod 256] ++ ns ++ [0] ++ schema ++ [0] ++ mime ++ [0].
+
+(* DecodeStppSR on a payload: (data reference index, namespace, schema location, auxiliary mime types,
+   nrMissingOptionalEndBytes).  A failed string read sets the reader's accumulated error: Err at the end.
+   Bytes left after the strings would be decoded as child boxes (btrt): not modelled, Err here. *)
+Definition stpp_decode (pl : str) : res (N * str * str * str * nat) :=
+  match pl with
+  | _ :: _ :: _ :: _ :: _ :: _ :: d1 :: d0 :: rest =>
+      let plen := length pl in
+      match read_zstr (plen - 8) rest with
+      | None => Err
+      | Some ns =>
+          let rest1 := skipn (S (length ns)) rest in
+          let rem1 := (plen - 8 - S (length ns))%nat in
+          let r2 := if Nat.ltb 0 rem1
+                    then match read_zstr rem1 rest1 with
+                         | None => None
+                         | Some sc => Some (sc, skipn (S (length sc)) rest1, (rem1 - S (length sc))%nat, 0%nat)
+                         end
+                    else Some ([], rest1, rem1, 1%nat) in
+          match r2 with
+          | None => Err
+          | Some (sc, rest2, rem2, miss2) =>
+              let r3 := if Nat.ltb 0 rem2
+                        then match read_zstr rem2 rest2 with
+                             | None => None
+                             | Some mi => Some (mi, (rem2 - S (length mi))%nat, miss2)
+                             end
+                        else Some ([], rem2, S miss2) in
+              match r3 with
+              | None => Err
+              | Some (mi, rem3, miss3) =>
+                  if Nat.ltb 0 rem3 then Err else Ok (d1 * 256 + d0, ns, sc, mi, miss3)
+              end
+          end
+      end
+  | _ => Err      (* SkipBytes / ReadUint16 beyond the end: accumulated error *)
+  end.
